@@ -8,7 +8,7 @@
    delegates (newest first); [dstate false] runs the protocol automaton of Spec.v over it. *)
 From Coq Require Import String List NArith Arith Bool.
 Import ListNotations.
-From TV Require Import C05.Model C05.Spec C05.SpecFacts C05.Proofs5 C05.Proofs6 C05.Proofs7 C05.Proofs8 C05.Proofs9 C05.Proofs10 C05.Proofs11 C05.Witness.
+From TV Require Import C05.Model C05.Spec C05.SpecFacts C05.Proofs5 C05.Proofs6 C05.Proofs7 C05.Proofs8 C05.Proofs9 C05.Proofs10 C05.Proofs11 C05.ProofsP4a C05.ProofsP4b C05.ProofsP4h C05.Witness.
 
 (* (INV) Along every event list the delegate calls follow  headers data* (finish | on_connection_close)
    request after request: nothing before headers, nothing after the terminal, no second terminal,
@@ -98,12 +98,60 @@ Print Assumptions C05_server_close_leaves_only_handler_waits_partial.
 
 (* The stream under the reader is a faithful FIFO (every event list): the bytes returned by completed reads
    ([eaten], in order), then the read buffer, then what is still queued in the transport, are exactly the bytes
-   the peer delivered ([wire]); the body offset recorded when the header block was read lies inside [eaten].
-   This is the stream half of "the data chunks concatenate to a prefix of the sent body"; the framing half
-   (data_received gets exactly the payload positions of those bytes) is NOT proved -- see NOTES.md. *)
-Theorem C05_stream_is_fifo_partial :
+   the peer delivered ([wire]); the body offset recorded when the header block was read lies inside [eaten]. *)
+Theorem C05_stream_is_fifo :
   forall parse c es,
     let m := sm (run_events parse c es) in
     wire m = eaten m ++ buf m ++ qcat (q m) /\ mark m <= length (eaten m).
 Proof. intros parse c es. exact (run_events_WI parse c es). Qed.
-Print Assumptions C05_stream_is_fifo_partial.
+Print Assumptions C05_stream_is_fifo.
+
+(* DATA-PREFIX CLAUSE (every parse, configuration and event list; for the request being served, at every moment,
+   in particular when its terminal is delivered -- afterwards its data cannot change, C05_trace_shape).
+   [g] = the bytes the body reader has consumed since the header block.  Enc / EncDone (ProofsP4a.v) is the grammar
+   of body encodings: [Enc fr r g0 p]: g0 is a partial encoding in framing fr (Content-Length n / chunked) with
+   decoded payload p, parse position r; [EncDone fr g p]: g is a COMPLETE encoding of payload p.
+   (1) g is a segment of the wire starting at the body offset;
+   (2) the chunks handed to data_received concatenate to a prefix of the payload p of a valid (partial) encoding g0
+       that is a prefix of g  (framing bytes -- chunk-size lines, CRLFs -- removed);
+   (3) once finish was delivered, g is a complete encoding and the data is exactly its whole payload. *)
+Theorem C05_data_is_prefix_of_sent_body :
+  forall parse c es,
+    let s := run_events parse c es in
+    let m := sm s in
+    let g := skipn (mark m) (eaten m) in
+    (forall w, pc s <> PErr w) ->
+    (exists rest, skipn (mark m) (wire m) = g ++ rest) /\
+    (exists g0 p, pref g0 g /\ Valid (cur_fr s) g0 p /\ pref (data_of (idx s) (trace s)) p) /\
+    (finished (idx s) (trace s) = true -> exists p, EncDone (cur_fr s) g p /\ data_of (idx s) (trace s) = p).
+Proof. exact data_prefix. Qed.
+Print Assumptions C05_data_is_prefix_of_sent_body.
+
+(* ... spelled out for Content-Length bodies: when finish is delivered the delegate has received exactly the n bytes
+   that follow the header block on the wire. *)
+Theorem C05_content_length_body_is_whole_on_finish :
+  forall parse c es n,
+    let s := run_events parse c es in
+    let m := sm s in
+    (forall w, pc s <> PErr w) -> cur_fr s = BFixed n -> finished (idx s) (trace s) = true ->
+    data_of (idx s) (trace s) = firstn (N.to_nat n) (skipn (mark m) (wire m)) /\
+    N.of_nat (length (data_of (idx s) (trace s))) = n.
+Proof.
+  intros parse c es n s m Hne Hfr Hf.
+  destruct (data_prefix parse c es Hne) as ([rest Hw] & _ & H3). fold s in H3, Hw. fold m in Hw.
+  destruct (H3 Hf) as (p & Hd & Hp). rewrite Hfr in Hd. apply EncDone_fixed in Hd. destruct Hd as [-> Hn].
+  rewrite Hp, Hw. unfold blen in Hn. split; [|exact Hn].
+  rewrite <- Hn, Nnat.Nat2N.id, firstn_app, Nat.sub_diag, firstn_all. cbn. rewrite app_nil_r. reflexivity.
+Qed.
+Print Assumptions C05_content_length_body_is_whole_on_finish.
+
+(* the chunked grammar is inhabited as expected: "2\r\nab\r\n0\r\n\r\n" is a complete encoding of "ab" *)
+Example C05_chunked_grammar_example :
+  EncDone BChunked [50;13;10;97;98;13;10;48;13;10;13;10]%N [97;98]%N.
+Proof.
+  apply (DCh BChunked [50;13;10;97;98;13;10;48;13;10]%N).
+  apply (EChZero BChunked 2 [50;13;10;97;98;13;10]%N [97;98]%N [48]%N); [|reflexivity].
+  apply (EChCrlf BChunked 2 [50;13;10;97;98]%N). apply EChToCrlf.
+  apply (EChD BChunked 2 2 [50;13;10]%N [] [97;98]%N); [|cbv; discriminate].
+  apply (EChSize BChunked 0 [] [] [50]%N 2); [constructor|reflexivity|discriminate].
+Qed.
